@@ -43,10 +43,11 @@ COQ_TARGETS = ["theories/Model/Graph.vo", "theories/Model/Inspect.vo", "theories
 
 THEOREMS = [
     "GI_base_ok", "GI_unwrap", "GI_args", "GI_issubscripted", "GI_isstdlib", "GI_can_be_cyclic", "GI_isuniontype",
-    "GI_is_generic", "GI_should_unwrap", "GI_defer_decision", "GI_isliteral", "GI_isforwardref", "GI_isfixedtuple", "GI_isstructured",
-    "GI_hints_structured", "GI_unresolvable", "GI_skip", "GI_qualname", "GI_class_names", "GI_rows_sound",
-    "GI_refuted_unwrap_strip", "GI_refuted_unwrap_fuel", "GI_refuted_args", "GI_refuted_isstdlib_wrapped_union",
-    "GI_refuted_fixedtuple_empty", "GI_refuted_subscripted_class_name", "GI_refuted_behind_wrapper", "GI_refuted_full",
+    "GI_is_generic", "GI_should_unwrap", "GI_defer_decision", "GI_isliteral", "GI_isliteral_any", "GI_isforwardref",
+    "GI_isfixedtuple", "GI_isstructured", "GI_hints_structured", "GI_unresolvable", "GI_skip", "GI_qualname",
+    "GI_class_names", "GI_rows_sound",
+    "GI_refuted_unwrap_fuel", "GI_refuted_args", "GI_refuted_isstdlib_wrapped_union",
+    "GI_refuted_subscripted_class_name", "GI_refuted_isliteral_behind_wrapper", "GI_refuted_full",
 ]
 
 CLAUSES = {1: "unwrap", 2: "args", 3: "issubscriptedgeneric", 4: "isstdlibtype", 5: "isstructuredtype",
@@ -158,7 +159,10 @@ class Hand:
             roots.append(C(i))
         roots += [named("aliasstr", text="UData"), named("aliasstr", text="list[UData]"),
                   named("aliasstr", text=f"{MODNAME}.UData"), named("aliasstr", text=f"dict[str, {MODNAME}.UData]"),
-                  named("aliasstr", text="Outer.Mid.Inner"), named("aliasstr", text="Literal[1]")]
+                  named("aliasstr", text="Outer.Mid.Inner"), named("aliasstr", text="Literal[1]"),
+                  # "<module>." that does NOT lead a dotted name stays (refs.forwardref, /repo 31a6d65)
+                  named("aliasstr", text=f"x{MODNAME}.UData"), named("aliasstr", text=f"pkg.{MODNAME}.UData"),
+                  named("aliasstr", text=f"dict[{MODNAME}.UData, x{MODNAME}.UData] | {MODNAME}.{MODNAME}.UNamed")]
         nt = named("newtype", C(0))
         roots += [nt, named("newtype", nt), named("alias", nt), named("alias", L(C(1))),
                   ("final", named("alias", named("newtype", C(2)))),
@@ -423,7 +427,7 @@ def replay_witnesses():
     def strip():
         r = I.unwrap(ns["A"])
         return (r.__class__ is typing.ForwardRef and r.__forward_arg__ == "UData" and r.__forward_module__ == MODNAME), r
-    case("GI_refuted_unwrap_strip", "Graph.v", strip)
+    case("GI_aligned (unwrap strips the module prefix)", "both models", strip)
 
     def fuel():
         t = int
@@ -442,14 +446,17 @@ def replay_witnesses():
         r = (I.isstdlibtype(nu), I.isstdlibtype(typing.Union[au, str]))
         return r == (True, True), r
     case("GI_refuted_isstdlib_wrapped_union", "Inspect.v", wrapped_union)
-    case("GI_refuted_fixedtuple_empty", "Inspect.v", lambda: (I.isfixedtupletype(tuple[()]) is True, I.isfixedtupletype(tuple[()])))
+    case("GI_aligned (tuple[()] is a fixed tuple)", "both models",
+         lambda: (I.isfixedtupletype(tuple[()]) is True, I.isfixedtupletype(tuple[()])))
     case("GI_refuted_subscripted_class_name", "Inspect.v",
          lambda: (I.issubscriptedgeneric(type("A[", (), {})) is True, I.issubscriptedgeneric(type("A[", (), {}))))
 
-    def behind():
-        r = (I.should_unwrap(typing.NewType("NF", typing.Final[int])), I.isliteral(typing.NewType("NL", typing.Literal[1])))
-        return r == (True, True), r
-    case("GI_refuted_behind_wrapper", "Inspect.v", behind)
+    case("GI_aligned (should_unwrap sees a qualifier behind a NewType)", "both models",
+         lambda: (I.should_unwrap(typing.NewType("NF", typing.Final[int])) is True,
+                  I.should_unwrap(typing.NewType("NF", typing.Final[int]))))
+    case("GI_refuted_isliteral_behind_wrapper", "Inspect.v",
+         lambda: (I.isliteral(typing.NewType("NL", typing.Literal[1])) is True,
+                  I.isliteral(typing.NewType("NL", typing.Literal[1]))))
     return out
 
 
@@ -472,7 +479,7 @@ def obligations(run: lib.Run, streams: bool = True):
         for t in THEOREMS:
             run.oblige(f"theorem:{t}", False, "generated tables do not compile")
     for thm, side, okr, seen in replay_witnesses():
-        run.oblige(f"ginspect:witness {thm} replayed on /repo (the code sides with {side})", okr, seen)
+        run.oblige(f"ginspect:{thm} replayed on /repo (the code sides with {side})", okr, seen)
     nann = sum(len(m["anns"]) for m in mods)
     if streams and os.path.exists(os.path.join(run.build, "GenGITables.vo")):
         bad, outside = evaluate(run, mods)
